@@ -1,5 +1,6 @@
 pub mod broad;
 pub mod build;
+pub mod c20corpus;
 pub mod mk;
 pub mod gen;
 pub mod lexers;
